@@ -73,6 +73,7 @@ class Python2VerilogTranspiler:
         init = initExtracter.visit(node)
         
         module = self.getMethodAST('propagate')
+        refuseBoolOpAsValue(module.body)
         node = createVerilogBody(module.body, '*')
         
         #initExtracter = ExtractInitializers(self.obj)
@@ -149,6 +150,7 @@ class Python2VerilogTranspiler:
             init.init.body.extend(node.process.body)
         
         module = self.getMethodAST('clock')
+        refuseBoolOpAsValue(module.body)
         
         clkname = getObjectClockDriver(self.obj).name
 
@@ -284,6 +286,45 @@ class Python2VerilogTranspiler:
     
     
     
+def isBooleanValued(node):
+    # expressions whose Python value is always False/True (0/1)
+    if (isinstance(node, ast.Compare)):
+        return True
+    if (isinstance(node, ast.UnaryOp) and isinstance(node.op, ast.Not)):
+        return True
+    if (isinstance(node, ast.BoolOp)):
+        return all(isBooleanValued(v) for v in node.values)
+    return False
+
+def refuseBoolOpAsValue(node, onlyTruthMatters=False):
+    # Python's "a and b" / "a or b" return one of their operands, Verilog's
+    # && and || return a 1-bit truth value. They are the same thing only where
+    # just the truth value is used (conditions, operands of and/or/not) or
+    # when every operand is itself 0/1 valued. Anything else is refused.
+    if (isinstance(node, list)):
+        for item in node:
+            refuseBoolOpAsValue(item)
+    elif (isinstance(node, ast.BoolOp)):
+        if not(onlyTruthMatters) and not(isBooleanValued(node)):
+            raise TranspilationException('"{}" used as a value is not supported, only as a condition'.format(ast.unparse(node)))
+        for v in node.values:
+            refuseBoolOpAsValue(v, True)
+    elif (isinstance(node, ast.UnaryOp) and isinstance(node.op, ast.Not)):
+        refuseBoolOpAsValue(node.operand, True)
+    elif (isinstance(node, ast.IfExp)):
+        refuseBoolOpAsValue(node.test, True)
+        refuseBoolOpAsValue(node.body, onlyTruthMatters)
+        refuseBoolOpAsValue(node.orelse, onlyTruthMatters)
+    elif (isinstance(node, (ast.If, ast.While))):
+        refuseBoolOpAsValue(node.test, True)
+        refuseBoolOpAsValue(node.body)
+        refuseBoolOpAsValue(node.orelse)
+    elif (isinstance(node, ast.Assert)):
+        pass
+    elif (isinstance(node, ast.AST)):
+        for child in ast.iter_child_nodes(node):
+            refuseBoolOpAsValue(child)
+
 class PropagateConstants(ast.NodeTransformer):
     # Propagate constants.
     # Meaning that operations between constants are collapsed, and calls to functions
